@@ -105,7 +105,7 @@ def check_extend(ctx, case):
     if add is not None:
         kw['additional_noise_Hamiltonian'] = add
     feats = {'single_pulse_whole_register_with_additional':
-             bool(len(assign) == 1 and list(assign[0]) == list(range(N)) and case['additional'])}
+             bool(len(assign) == 1 and sorted(assign[0]) == list(range(N)) and case['additional'])}
     key = (N, tuple(map(tuple, assign)), tuple(case['states']), case['cache_diag'], case['cache_ff'],
            case['additional'], case['traceless'], case['seed'])
     ctx.count(key, nontrivial=len(assign) >= 2 or N > len(assign[0]))
